@@ -101,13 +101,29 @@ PROPS = {
     ),
     "C01": dict(
         proof_modules=["KsVerif.Proofs.C01"],
-        families=["redis.raw"],
-        rule="redis.raw: fixed corpus of inputs that historically broke the reader (each with every two-piece split, "
+        families=["redis.raw", "amqp.raw"],
+        rule="amqp.raw: corpus of frames with lengths far beyond the data, negative lengths, bad frame types and "
+             "end octets (each with every two-piece split and both stream ends), every prefix of well-formed halves, "
+             "byte corruptions with boundary values, random bytes, random splits; redis.raw: fixed corpus of inputs that historically broke the reader (each with every two-piece split, "
              "EOF and reader-error tails), plus seeded: every prefix of well-formed halves, 1-3 byte corruptions with "
              "boundary values, random bytes, random multi-piece splits; non-trivial = at least 2 bytes; "
              "AMQP/Kafka/HTTP families are added as their models land",
         trusted_base=REDIS_TB + LIB,
         assumptions=["AMQP, Kafka and HTTP dissectors are not yet covered by this check (Redis only in this commit)"],
+    ),
+    "C05": dict(
+        proof_modules=["KsVerif.Proofs.C05"],
+        families=["amqp.conv"],
+        rule="amqp.conv: frame sequences from an independent AMQP 0-9-1 encoder (Go side, cross-checked byte for byte "
+             "against the Lean spec encoder): every method of the regenerated table alone on each half with random "
+             "boundary-valued arguments (empty / 255-byte short strings, all bit combinations, tables holding every "
+             "field type incl. nested tables and arrays), request / -ok pairs, then seeded well-formed conversations: "
+             "publish / deliver with every property-flag subset and bodies of 0..2000 bytes in 0..2 frames, several "
+             "channels, heartbeats, unsupported methods interspersed, the connection handshake; non-trivial = at least one frame",
+        trusted_base=["Amqp/Model.lean + Dissect.lean: hand-written model of read.go / main.go; argument decoders driven by "
+                      "GenAmqpMethods.lean (re-translated from spec091.go, types.go, read.go, helpers.go by ksextract)",
+                      "Amqp/Spec.lean: independent encoder and the reports the statement demands"] + LIB,
+        assumptions=["io.ReadFull / binary.Read / io.CopyN on the bufio.Reader depend on the remaining bytes only"],
     ),
     "C07": dict(
         proof_modules=["KsVerif.Proofs.C07"],
@@ -124,7 +140,7 @@ PROPS = {
     ),
     "C08": dict(
         proof_modules=["KsVerif.Proofs.C08"],
-        families=["redis.split", "redis.convsplit"],
+        families=["redis.split", "redis.convsplit", "amqp.split"],
         rule="redis.split: the same byte streams as redis.raw delivered under every two-piece split (short streams, "
              "exhaustive) and random multi-piece splits down to single bytes; the observation must equal the one the "
              "bytes alone determine; redis.convsplit adds random segmentations of well-formed conversations; "
